@@ -88,6 +88,19 @@ def gen_cases(tier, seed):
             lines = colourise(lines, r)
         for opts, keep in [(r.choice(KEEP), True), (r.choice(KEEP), True), (r.choice(OVERRIDE), False)]:
             cases.append({"lines": lines, "opts": opts, "keep": keep, "coloured": coloured, "kinds": [s["kind"] for s in d["sections"]]})
+    # `git log -p` with a terse format / concatenated `git show`: a commit block directly after a hunk's last line
+    for i in range(n // 4):
+        r = vlib.case_rng(seed, PID, ("log", i))
+        d = gdiff.gen_diff(r, nsec=r.randint(2, 4), log=True)
+        for s_ in d["sections"][1:]:
+            if r.random() < 0.7:
+                s_["pre"] = ([""] if r.random() < 0.3 else []) + gdiff.gen_log_wrapper(r)
+        lines = gdiff.diff_lines(d)
+        coloured = r.random() < 0.4
+        if coloured:
+            lines = colourise(lines, r)
+        for opts, keep in [(r.choice(KEEP), True), (["--commit-style", r.choice(["bold yellow", "red overline", "blue ul"])], True), (r.choice(OVERRIDE), False)]:
+            cases.append({"lines": lines, "opts": opts, "keep": keep, "coloured": coloured, "kinds": ["log"] + [s_["kind"] for s_ in d["sections"]]})
     # other well-formed inputs of the property's domain: plain `diff -u` streams and combined diffs (oracle only:
     # the line state machine model covers git's two-way diffs)
     for i in range(n // 6):
